@@ -19,7 +19,7 @@ MODES = ["own", "alt.Recompose", "oj.Unmarshal", "sen.Unmarshal"]
 # kinds of the C15 menu that can be recomposed at all (exported fields, no custom encoders, no time: see DESIGN-notes/C16.md)
 RT_KINDS = {"bool", "int", "uint8", "float", "string", "*int", "*S", "[]int", "[]uint8", "[]S", "[]*S", "[2]int", "map[string]int",
             "map[string]string", "map[string]*S", "map[string]M", "map[string]*M", "[]M", "[]*M", "any", "S", "anon", "E1", "*E1",
-            "E3", "E4", "N", "*N", "[]N", "map[string]N", "IS1", "IP1", "*P2", "*Q2", "R1", "[4]uint8", "BA4", "[2]S", "map[string]S", "float32", "[]float32", "[]anyP", "L1", "Str1", "Str2", "Col1", "Col2", "Col3", "T1", "T2", "*T2", "U", "V", "W", "MyInt"}
+            "E3", "E4", "N", "*N", "[]N", "map[string]N", "IS1", "IS64", "IP1", "*P2", "*Q2", "R1", "[4]uint8", "BA4", "[2]S", "map[string]S", "float32", "[]float32", "[]anyP", "L1", "Str1", "Str2", "Col1", "Col2", "Col3", "T1", "T2", "*T2", "U", "V", "W", "MyInt"}
 NAPI = 16   # round-trip routes: 3 routes x 3 key naming modes x value / pointer source (harness rtAPIs)
 
 
@@ -129,7 +129,7 @@ def main(ctx):
             if k not in sseen:
                 sseen.add(k)
                 cases.append(c)
-    for top in ("S", "T1", "T2", "U", "V", "W", "Emb", "EmbPtr", "Str1", "Str2", "Col1", "Col2", "Col3", "L1", "[]anyP", "N", "IS1", "IP1"):
+    for top in ("S", "T1", "T2", "U", "V", "W", "Emb", "EmbPtr", "Str1", "Str2", "Col1", "Col2", "Col3", "L1", "[]anyP", "N", "IS1", "IS64", "IP1"):
         for v in ("z", "n", "e"):
             if (top, v) != ("W", "e"):
                 cases.append({"f": [], "top": top, "v": v})
